@@ -53,6 +53,9 @@ func selftestDeterminism(args []string) {
 		fatal2("%v", err)
 	}
 	defer os.RemoveAll(scratch)
+	cleanupDirs = append(cleanupDirs, scratch)
+	workerTmp = filepath.Join(scratch, "tmp")
+	os.MkdirAll(workerTmp, 0o755)
 	raceLogBase = filepath.Join(scratch, "race")
 	cpus := []string{"1", "4", "16"}
 	type key struct {
@@ -168,6 +171,7 @@ func selftestDeterminism(args []string) {
 	}
 	if len(diverged) > 0 || len(trouble) > 0 || len(names) != len(propsList) {
 		fmt.Println("determinism self-test FAILED")
+		cleanup()
 		os.Exit(2)
 	}
 	fmt.Println("determinism self-test passed")
@@ -183,6 +187,9 @@ func selftestRace() {
 		fatal2("%v", err)
 	}
 	defer os.RemoveAll(scratch)
+	cleanupDirs = append(cleanupDirs, scratch)
+	workerTmp = filepath.Join(scratch, "tmp")
+	os.MkdirAll(workerTmp, 0o755)
 	raceLogBase = filepath.Join(scratch, "race")
 	ok := true
 	for _, mode := range []string{"race", "guarded"} {
@@ -221,6 +228,7 @@ func selftestRace() {
 	}
 	if !ok {
 		fmt.Println("race self-test FAILED")
+		cleanup()
 		os.Exit(2)
 	}
 	fmt.Println("race self-test passed")
@@ -325,6 +333,7 @@ func selftestHooks() {
 	}
 	if len(bad) > 0 || nlock == 0 {
 		fmt.Println("hook self-test FAILED")
+		cleanup()
 		os.Exit(2)
 	}
 	fmt.Println("hook self-test passed")
